@@ -73,6 +73,11 @@ CLAIMS = {
         design_ref="DESIGN.md §3 C16",
         note="Timing traces over long histories and cache eviction are not decided. Trusted base as C17.",
         technique="static analysis: guard must-pass-through, ordering/pairing, who-may-call, constants over rustc MIR"),
+    'C18': dict(
+        text="Every entry/refresh of the bound state in dhcpv4::process is dominated by the chaddr, xid, server-identifier, ACK and parse_ack guards; parse_ack accepts only behind mask-present, contiguous-mask and unicast-address guards (and the mask scanner's flag is monotone); the (state, message type) relation extracted by value-split abstract interpretation is within the RFC 2131 table; expires_at = now + min(lease, max); bound-state poll deadline clamped by expires_at; no request after expiry, expiry resets and signals; xid/retry updated only after a successful emit.",
+        design_ref="DESIGN.md §3 C18",
+        note="Lease arithmetic over all T1/T2/lease values (ordering of renew/rebind/expiry) is not decided. Trusted base as C17.",
+        technique="static analysis: guard must-pass-through, finite-domain abstract interpretation, origin-tree value shapes over rustc MIR"),
 }
 
 NOT_YET = "structural rules for this property are not built yet in this revision; no static claim is made"
